@@ -106,7 +106,7 @@ int vnacal_new_set_m_error(vnacal_new_t *vnp,
 	double lower, upper;
 
 	for (int i = 1; i < frequencies; ++i) {
-	    if (frequency_vector[i - 1] >= frequency_vector[i]) {
+	    if (!(frequency_vector[i - 1] < frequency_vector[i])) { /* or NaN */
 		_vnacal_error(vcp, VNAERR_USAGE,
 			"vnacal_new_set_m_error: "
 			"frequencies must be ascending");
